@@ -1,4 +1,5 @@
 import locale
+import operator
 import logging
 import os
 import select
@@ -267,7 +268,7 @@ class Input(ContextManager["Input"]):
             return self.queued_interrupting_events.pop(0)
 
         if self.queued_scheduled_events:
-            self.queued_scheduled_events.sort(key=lambda pair: pair[0])
+            self.queued_scheduled_events.sort(key=operator.itemgetter(0))
             when, _ = self.queued_scheduled_events[0]
             if when < time.time():
                 logger.debug(
@@ -296,7 +297,7 @@ class Input(ContextManager["Input"]):
             return event
         if self.queued_scheduled_events:
             # events may have been scheduled (from a callback) while we were waiting
-            self.queued_scheduled_events.sort(key=lambda pair: pair[0])
+            self.queued_scheduled_events.sort(key=operator.itemgetter(0))
             when, _ = self.queued_scheduled_events[0]
             if when < time.time():
                 logger.debug(
